@@ -232,3 +232,7 @@ def run(chk):
                     f'under the {pname} permutation the four slices are disjoint 13-card hands covering the pack',
                     f'under the {pname} permutation of the pack the dealer does not return 4 disjoint 13-card hands covering 52 cards')
     f.stubs.pop('random.shuffle', None)
+    # ---- the JSON card lists reach the file through the streaming JSON writer: a deal written after a record that could not be
+    #      serialised (or in a session that ends early) must still decode - the envelope of the writer, folded as for C13 / C17
+    from .jsonfile import envelope_rule
+    envelope_rule(chk, 'C14.R5')
